@@ -4,6 +4,16 @@ HERE = os.path.dirname(os.path.dirname(os.path.abspath(__file__)))
 BASE = json.load(open("/root/.vp/BASELINE.json"))["cmd"]
 
 CHECKS = {
+ "C04": dict(
+   technique="exhaustive enumeration of all order-preserving interleavings of a subject script with an interfering bandit's script (56 merges x 3 interferer kinds x every combination); fresh-interpreter runs over a hash-seed alphabet",
+   text="The 5-step script of a seeded bandit is interleaved in every possible way with the 3-step script of another bandit with another seed (built from the very same policy tuple objects, from default-constructed tuples, or a TreeBandit) and must produce the outputs it produces alone; the script is also executed in fresh interpreters with PYTHONHASHSEED 0, 1, 4242 and random. TreeBandit subjects use a driver in which the random_state-dependent split choice is observable.",
+   note="single-threaded numerical kernels as the property assumes; one subject script per combination",
+   ref="DESIGN.md section 7 (C04)"),
+ "C18": dict(
+   technique="deviation-bounded exhaustive enumeration of container encodings (all assignments differing from the all-lists baseline in <= B of 7 data axes) per policy combination, with byte-level before/after snapshots of every caller object",
+   text="A scenario covering all eight public methods is executed for every encoding assignment within the deviation bound (lists, int/float ndarrays, Fortran/strided/transposed views, Series with non-monotonic index, DataFrames with labels); outputs must equal the baseline and no object passed in (data, arms list, policy parameter objects, feature dict) may change; Series single-row / single-feature disambiguation scenarios are compared with their list equivalents.",
+   note="B = 2 (quick) / 3 (thorough); int arm labels; exact comparison (1e-9 for linear policies)",
+   ref="DESIGN.md section 7 (C18)"),
  "C06": dict(
    technique="bounded exhaustive enumeration of row sequences x all compositions into fit + partial_fit* per policy combination; differential oracle against the single-fit bandit (canonical object-graph identity after generator alignment, else output comparison)",
    text="Every row sequence up to the length bound over a 4-row alphabet (chunks that omit arms and one-row chunks arise from the compositions) is trained once with a single fit and once through every composition into consecutive chunks; the two bandits must be observationally identical from the same stream position.",
